@@ -4,6 +4,8 @@ import bb, vlib
 
 LISTENER_PROTOS = ["http", "socks5", "socks4", "reverse"]
 UPSTREAMS = ["direct", "uphttp", "upsocks5", "upsocks4"]
+EXTRA_UPSTREAMS = ["upquic", "uptls"]        # second hop over QUIC streams / over a TLS-wrapped HTTP CONNECT
+FX = bb.FIX
 
 
 def yaml_list(items, indent=2):
@@ -30,8 +32,10 @@ class Topology:
         self.p2_socks = bb.free_port()
         self.reverse_target = reverse_target
         ls = []
+        self.p2_quic = bb.free_port(socket.SOCK_DGRAM)
+        self.p2_https = bb.free_port()
         for proto in LISTENER_PROTOS:
-            for up in UPSTREAMS:
+            for up in UPSTREAMS + EXTRA_UPSTREAMS:
                 port = bb.free_port()
                 self.ports[(proto, up)] = port
                 lname = "%s_%s" % (proto, up)
@@ -57,19 +61,25 @@ class Topology:
         conns = [{"name": "direct"},
                  {"name": "uphttp", "type": "http", "server": "127.0.0.1", "port": self.p2_http},
                  {"name": "upsocks5", "type": "socks", "server": "127.0.0.1", "port": self.p2_socks, "version": 5},
-                 {"name": "upsocks4", "type": "socks", "server": "127.0.0.1", "port": self.p2_socks, "version": 4}]
+                 {"name": "upsocks4", "type": "socks", "server": "127.0.0.1", "port": self.p2_socks, "version": 4},
+                 {"name": "upquic", "type": "quic", "server": "localhost", "port": self.p2_quic, "bind": "127.0.0.1:0", "tls": {"ca": FX + "/ca.crt"}},
+                 {"name": "uptls", "type": "http", "server": "localhost", "port": self.p2_https, "tls": {"ca": FX + "/ca.crt"}}]
         rules = list(extra_rules_first or [])
         if special:
             conns.append({"name": "lb", "type": "loadbalance", "connectors": ["direct"]})
             rules.append({"filter": 'request.listener =~ "_deny$"', "target": "deny"})
             rules.append({"filter": 'request.listener =~ "_lb$"', "target": "lb"})
-        for up in UPSTREAMS:
+        for up in UPSTREAMS + EXTRA_UPSTREAMS:
             rules.append({"filter": 'request.listener =~ "_%s$"' % up, "target": up})
         self.access_log = access_log
         self.cfg1 = self._cfg(self.api1, ls, conns, rules, splice, buffer, idle, udp, history, access_log)
         p2rules = ([{"filter": "request.target.port == %d" % p2_deny_port, "target": "deny"}] if p2_deny_port else []) + [{"target": "direct"}]
         self.cfg2 = self._cfg(self.api2, [{"name": "http", "bind": "127.0.0.1:%d" % self.p2_http},
-                                          {"name": "socks", "bind": "127.0.0.1:%d" % self.p2_socks}],
+                                          {"name": "socks", "bind": "127.0.0.1:%d" % self.p2_socks},
+                                          {"name": "quic", "type": "quic", "bind": "127.0.0.1:%d" % self.p2_quic,
+                                           "tls": {"cert": FX + "/server.crt", "key": FX + "/server.key"}},
+                                          {"name": "https", "type": "http", "bind": "127.0.0.1:%d" % self.p2_https,
+                                           "tls": {"cert": FX + "/server.crt", "key": FX + "/server.key"}}],
                               [{"name": "direct"}], p2rules, splice, buffer, idle, udp, history, None)
         self.log = log
 
